@@ -595,7 +595,15 @@ def install(ip):
             raise Unsupported("to_bytes variant")
         code = {1: "B", 2: "H", 4: "I", 8: "Q"}.get(length)
         if code is None:
-            raise Unsupported("to_bytes length")
+            # any other width: range check, then the base-256 digits (most significant first)
+            from .prims import byte_decomp
+            t = ip.to_z3(v, "int")
+            if ip.path.branch(z3.Or(t < 0, t >= 2 ** (8 * length))):
+                ip.raise_exc("OverflowError", "int too big to convert" if length else "int too big to convert")
+            if length == 0:
+                return b""
+            digits = byte_decomp(ip, t, length)
+            return ip.wrap(z3.Concat(*[z3.Unit(d) for d in digits]) if length > 1 else z3.Unit(digits[0]), "bytes")
         try:
             return struct_pack(ip, [">" + code, v], {})
         except PyRaise:
